@@ -48,6 +48,7 @@ def run(tier):
     chk.cov["nested_configurations"] = ["%s<%s>" % (k, inner) for (k, n, m, inner) in nested]
     # implementation -> spec: random exact programs recorded on the real crate, validated by TLC
     trace_check(chk, kinds, 1500 if tier == "quick" else 20000, "C02 trace validation")
+    trace_check(chk, NESTED_THOROUGH, 1500 if tier == "quick" else 20000, "trace validation (nested types)", seed_off=7)
     return chk.finish(rule="one case = (concrete type, operation, syntactic form) replayed bit-exactly; behaviours are "
                            "load;load;op programs enumerated by TLC over generic operand values (all presence patterns "
                            "of optional parts), expected results computed by the B-model over exact rationals; nested types "
